@@ -18,6 +18,7 @@ use crate::reg::Reg;
 #[cfg(feature = "c03")] pub mod c03;
 #[cfg(feature = "c02")] pub mod c02;
 #[cfg(feature = "c19")] pub mod c19;
+#[cfg(feature = "c20")] pub mod c20;
 
 pub fn register(prop: &str, reg: &mut Reg) {
     match prop {
@@ -38,6 +39,7 @@ pub fn register(prop: &str, reg: &mut Reg) {
         #[cfg(feature = "c03")] "C03" => c03::register(reg),
         #[cfg(feature = "c02")] "C02" => c02::register(reg),
         #[cfg(feature = "c19")] "C19" => c19::register(reg),
+        #[cfg(feature = "c20")] "C20" => c20::register(reg),
         _ => { eprintln!("symx: property {} not available in this build", prop); std::process::exit(2); }
     }
 }
